@@ -395,6 +395,24 @@ func r144models(c *an.Ctx) {
 			if allAre(an.ValuesAt(r.Results[0]), an.IsNilConst) {
 				continue
 			}
+			// a return taken because the write handed back nothing (it failed): there is no stored value to report
+			nothingStored := false
+			for _, e := range an.GuardingEdges(r) {
+				x, trueMeansNil, isNil := an.NilTest(e.If.Cond)
+				if !isNil || e.Branch != trueMeansNil {
+					continue
+				}
+				for _, v := range an.ValuesAt(x) {
+					for _, w := range ws {
+						if an.IsExtractOf(v, w, 0) {
+							nothingStored = true
+						}
+					}
+				}
+			}
+			if nothingStored {
+				continue
+			}
 			n++
 			fromWrite := false
 			for _, s := range an.Sources(r.Results[0]) {
